@@ -1,7 +1,7 @@
 (* C19 - Grapheme strings are pure values: cached boundaries never go stale. *)
 From Coq Require Import List Bool Arith ZArith Lia.
 Import ListNotations.
-From Rosed Require Import Base.Res Base.ListX Gem.Segment Gem.GString Gem.GHeap Model.Util Proofs.SegmentP Proofs.C04P Proofs.C19P.
+From Rosed Require Import Base.Res Base.ListX Gem.Segment Gem.GString Gem.GHeap Gem.GSpec Model.Util Proofs.SegmentP Proofs.C04P Proofs.C19P Proofs.C19H.
 
 (* boundaries partition the code points, for arbitrary rune values and any classifier:
    they concatenate to the input, no cluster is empty *)
@@ -45,3 +45,27 @@ Theorem C19_len : forall (C : Classifier) h v l, g_c v = Some l -> l < length h 
   n = glen (g_r v) /\ ((rd h' l = None /\ g_r v = []) \/ rd h' l = Some (split_runes (g_r v))).
 Proof. intros C. exact gh_len_correct. Qed.
 Print Assumptions C19_len.
+
+(* the whole property, over histories: run any sequence of New / Zero / String{} / value copy /
+   Add / Sub / SetCharAt / Repeat / CharAt / Len / Runes / GraphemeIndexes on the heap model of
+   gem.String (values sharing lazily filled cache cells, written after string.go) from the
+   initial heap. After every step the contents of all pool values and the step's observation
+   are exactly those of the pure model (Gem/GSpec.v), in which a value is its code points and
+   Len, CharAt and the boundaries are recomputed from the content each time - i.e. those of a
+   value freshly built from the same content; the pool only ever grows, so no operand is
+   altered; and the invariant WF (each cell nil or exactly the boundaries of every value that
+   points to it) holds in every state. Reverse, which installs mirrored boundaries on purpose,
+   is outside the quantifier (in_c19). *)
+Theorem C19_history : forall (C : Classifier) ops, Forall in_c19 ops ->
+  map (fun so => (view (fst so), snd so)) (grun (heap0, []) ops) = prun [] ops /\
+  Forall (fun so => WF (fst so)) (grun (heap0, []) ops).
+Proof. intros C. exact history_from_start. Qed.
+Print Assumptions C19_history.
+
+Theorem C19_operands_kept : forall (C : Classifier) pool o,
+  fst (pstep pool o) = pool \/ exists x, fst (pstep pool o) = pool ++ [x].
+Proof. intros C. exact pstep_appends. Qed.
+Print Assumptions C19_operands_kept.
+
+Example C19_history_premise : Forall in_c19 [GNew [97; 769; 98]%Z; GCopy 0; GLen 0; GSub 1 0%Z 1%Z; GAdd 3 0; GZeroValue; GRepeat 4 2%Z; GSetCharAt 6 1%Z [120]%Z; GCharAt 7 0%Z].
+Proof. exact history_premise. Qed.
